@@ -4,6 +4,8 @@
 -/
 import IcontractModel.Meta
 import IcontractModel.Lemmas.MetaFrame
+import IcontractModel.Lemmas.Separation
+import IcontractModel.Spec.Override
 namespace Icontract.Meta
 
 /-- everything introspection can show about the functions and classes that exist in `w` is a function of
@@ -75,5 +77,25 @@ theorem C17_first_invariant_allocates (w : World) (k : ClsId) (c : CId) (on : Ch
     (cls : Cls) (hc : w.cls? k = some cls) (hnone : lookupInv w k .all = none) :
     ∀ r < w.heap.length, (addInvariant w k c on).heap.get r = w.heap.get r := by
   exact (addInvariant_first w k c on cls hc hnone).1
+
+/-- **A late decoration stays local**: when no two functions share a list cell, adding a precondition, a
+postcondition (in place, as `@require` / `@ensure` applied to an already contracted member do) to function `f` leaves
+everything introspection shows about every other function `g` exactly as it was. -/
+theorem C17_late_decoration_stays_local (w : World) (f g : FnId) (c : CId) (hfg : f ≠ g)
+    (hsep : Separated w) (hwf : CheckersWf w) (hf : (w.checker? f).isSome = true) :
+    (preOf (addPre w f c) g = preOf w g ∧ postsOf (addPre w f c) g = postsOf w g ∧ snapsOf (addPre w f c) g = snapsOf w g) ∧
+    (preOf (addPost w f c) g = preOf w g ∧ postsOf (addPost w f c) g = postsOf w g ∧ snapsOf (addPost w f c) g = snapsOf w g) := by
+  obtain ⟨ckf, hckf⟩ := Option.isSome_iff_exists.mp hf
+  exact ⟨addPre_local w f g c hfg hsep hwf ckf hckf, addPost_local w f g c hfg hsep ckf hckf⟩
+
+/-- **Defining a class keeps the functions separated** (the groups collected from the bases are copied, the three
+lists of every member are fresh): so after any history of decorations and class definitions starting from the empty
+world a late decoration is local. -/
+theorem C17_defineClass_preserves_separation (w w' : World) (k : ClsId) (bases : List ClsId)
+    (ns : List (String × Member)) (dbc : Bool)
+    (hsep : Separated w) (hwf : CheckersWf w)
+    (h : defineClass w k bases ns dbc = .ok w') :
+    Separated w' ∧ CheckersWf w' := by
+  exact defineClass_sepWf w w' k bases ns dbc true h ⟨hsep, hwf⟩
 
 end Icontract.Meta
